@@ -49,7 +49,7 @@ func (dw *defaultWalkerPipeline) worker(ctx context.Context, wg *sync.WaitGroup,
 				return
 			}
 			if err := dw.walkNode(root, callback); err != nil {
-				errc <- err
+				sendErr(ctx, errc, err)
 			}
 		}
 	}
